@@ -84,3 +84,7 @@ pub trait Encoder<T> {
     type Error;
     fn encode(&mut self, item: T, buf: &mut BytesMut) -> ::std::result::Result<(), Self::Error>;
 }
+
+// a str never holds more than isize::MAX bytes (Rust allocation limit); spec_bytes is vstd's UTF-8 encoding
+pub broadcast axiom fn axiom_str_len(s: &str)
+    ensures #[trigger] s.spec_bytes().len() <= isize::MAX;
